@@ -283,6 +283,17 @@ def p_typed(items):
                 return 'Installed-Size %r became %r' % (v, got)
         elif got is not v and got != v:
             return 'field %r changed from %r to %r' % (k, v, got)
+    # the set of relationship fields is an argument: with another set exactly those names are parsed
+    for custom in (frozenset(['Depends']), frozenset(debcon.DEPS_FIELDS) | {'X-Extra-Deps', 'Homepage'}, frozenset()):
+        try:
+            out2 = _deps._quiet(debcon.parse_control_fields, m, custom)
+        except Exception:  # noqa  (a value that is not a relationship, named as one)
+            continue
+        for k, v in m.items():
+            n = debcon.normalize_control_field_name(k)
+            is_rel = isinstance(out2[n], deps.AbstractRelationship)
+            if is_rel != (n in custom):
+                return 'with deps_fields=%r the field %r is %s as a relationship' % (sorted(custom), k, 'parsed' if is_rel else 'not parsed')
     if len(out) != len(set(debcon.normalize_control_field_name(k) for k in m)):
         return 'typed mapping has the wrong keys: %r' % list(out)
     return None
@@ -292,6 +303,24 @@ def p_roundtrip(items):
     d = debcon.Debian822([tuple(kv) for kv in items])
     text = d.dumps()
     back = debcon.Debian822(text)
+    first_line = text.split('\n')[0]
+    if first_line and '/' not in first_line and len(first_line) < 200 and '\0' not in first_line:
+        # a file that happens to be named like a one-line text: the text is still a text
+        import os
+        import tempfile
+        cwd = os.getcwd()
+        with tempfile.TemporaryDirectory() as td:
+            try:
+                os.chdir(td)
+                with open(os.path.join(td, first_line), 'w') as fh:
+                    fh.write('Package: from-the-file\n')
+                one = debcon.Debian822(first_line).to_dict()
+            except OSError:
+                one = None
+            finally:
+                os.chdir(cwd)
+        if one is not None and one != debcon.Debian822(first_line).to_dict():
+            return 'Debian822(%r) gives %r when a file of that name exists in the working directory' % (first_line, one)
     if back.to_dict() != d.to_dict():
         return 'dumps/read back gives %r, not %r (text %r)' % (back.to_dict(), d.to_dict(), text)
     back2 = debcon.Debian822(io.StringIO(text))
